@@ -179,6 +179,8 @@ def _raised_in_code_under_test(tb_text):
     pkg = os.path.join(os.path.realpath(REPO), "sigpy") + os.sep
     own = os.path.realpath(ROOT) + os.sep
     for f, ln, fnname in reversed(frames):  # innermost first; frames of third-party libraries (numpy, pywt, ...) are skipped
+        if not os.path.isabs(f):
+            continue                        # compiled extension modules report relative source paths (pywt/_extensions/_dwt.pyx)
         rf = os.path.realpath(f)
         if rf.startswith(pkg):
             return "%s:%s" % (os.path.relpath(rf, os.path.realpath(REPO)), fnname)
@@ -194,7 +196,75 @@ def raised_in_code_under_test():
     return _raised_in_code_under_test(traceback.format_exc())
 
 
+def _engine_props(engine_name, ctx):
+    from harness import registry
+
+    return sorted(p for p, d in registry.PROPS.items() if any(en == engine_name for en, _, _ in d["engines"])) or [ctx.prop]
+
+
 def _run_engine(engine_name, fn, ctx):
+    """Run the engine in a forked child: native code of the library under test (numba kernels, compiled extensions it drives
+    out of bounds) may kill the interpreter outright, and a dead interpreter is a verdict about that code, not about the
+    machinery.  The child hands its result back as JSON; VERIF_INPROCESS=1 runs it in this process (debugging)."""
+    if os.environ.get("VERIF_INPROCESS"):
+        return _run_engine_here(engine_name, fn, ctx)
+    import signal
+    import tempfile
+
+    os.makedirs(WORK, exist_ok=True)
+    fd, path = tempfile.mkstemp(prefix="engine_%s_" % engine_name, suffix=".json", dir=WORK)
+    os.close(fd)
+    t0 = time.time()
+    sys.stdout.flush()
+    sys.stderr.flush()
+    pid = os.fork()
+    if pid == 0:
+        code = 3
+        try:
+            r = _run_engine_here(engine_name, fn, ctx)
+            with open(path, "w") as f:
+                json.dump(r.to_json(), f, default=_jsonable)
+            code = 0
+        except BaseException:
+            import traceback
+
+            traceback.print_exc()
+        finally:
+            sys.stdout.flush()
+            sys.stderr.flush()
+            os._exit(code)
+    _, status = os.waitpid(pid, 0)
+    try:
+        if os.WIFSIGNALED(status):
+            sig = os.WTERMSIG(status)
+            try:
+                name = signal.Signals(sig).name
+            except ValueError:
+                name = str(sig)
+            r = EngineResult(engine_name)
+            if sig in (signal.SIGSEGV, signal.SIGABRT, signal.SIGBUS, signal.SIGFPE, signal.SIGILL):
+                r.violations.append(Violation(_engine_props(engine_name, ctx), engine_name, {"kind": "code_crashes", "signal": name},
+                                              "the interpreter was killed by %s while the engine exercised the code under test on inputs the specification accepts "
+                                              "(memory corruption / out-of-bounds access in native code)" % name, {}))
+                r.notes.append("engine aborted: interpreter killed by %s" % name)
+            else:
+                r.machinery_error = "engine process killed by %s" % name
+        elif os.WIFEXITED(status) and os.WEXITSTATUS(status) == 0:
+            with open(path) as f:
+                r = EngineResult.from_json(json.load(f))
+        else:
+            r = EngineResult(engine_name)
+            r.machinery_error = "engine process exited with status %s" % (os.WEXITSTATUS(status) if os.WIFEXITED(status) else status)
+    finally:
+        try:
+            os.remove(path)
+        except OSError:
+            pass
+    r.wall_s = time.time() - t0
+    return r
+
+
+def _run_engine_here(engine_name, fn, ctx):
     t0 = time.time()
     try:
         r = fn(ctx)
@@ -207,9 +277,7 @@ def _run_engine(engine_name, fn, ctx):
         if where:
             # the code under test raised on an input that was generated from a state the specification accepts and that the
             # unchanged tree handles: no result is a wrong result for every property this engine decides
-            from harness import registry
-
-            props = sorted(p for p, d in registry.PROPS.items() if any(en == engine_name for en, _, _ in d["engines"])) or [ctx.prop]
+            props = _engine_props(engine_name, ctx)
             r.violations.append(Violation(props, engine_name, {"kind": "code_raises", "where": where, "exception": type(e).__name__},
                                           "the code under test raised on an input the specification accepts: %s: %s (innermost frame %s)" % (type(e).__name__, str(e)[:300], where),
                                           {"traceback": txt[-4000:]}))
